@@ -15,15 +15,16 @@ VARIABLES lay, done, src
 
 Elements == { El("plain", 0), El("lcomment", 0), El("define", 0), El("bcomment", 1), El("bcomment", 3),
               El("definecont", 1), El("definecont", 2), El("textcont", 1), El("inactive", 2), El("active", 1),
-              El("undef", 0), El("undefmissing", 0), El("else", 1),
+              El("undef", 0), El("undefmissing", 0), El("else", 1), El("inactivestr", 0),
               Inc(<<El("plain", 0)>>), Inc(<<El("definecont", 1), El("plain", 0)>>),
               Inc(<<Inc(<<El("textcont", 1)>>), El("plain", 0)>>) }
 Pre == { <<>>, <<El("definecont", 1)>>, <<El("bcomment", 3), El("lcomment", 0)>> }
 NestsAll == { <<>> } \cup { <<p>> : p \in Pre } \cup { <<p[1], p[2]>> : p \in Pre \X Pre }
 NestsFew == { <<>> } \cup { <<p>> : p \in Pre } \cup { << <<>>, <<El("definecont", 1)>> >>, << <<El("definecont", 1)>>, <<El("bcomment", 3), El("lcomment", 0)>> >> }
 Nests == IF NestMode = "few" THEN NestsFew ELSE NestsAll
-Faults == { [kind |-> k, pad |-> p] : k \in {"parse", "runtime", "linemacro"}, p \in {0, 3} }
-NoSrc == [lay |-> <<>>, crlf |-> FALSE, nest |-> <<>>, fault |-> [kind |-> "none", pad |-> 0]]
+Faults == { [kind |-> k, pad |-> p, pre |-> 0] : k \in {"parse", "runtime", "linemacro"}, p \in {0, 3} }
+          \cup { [kind |-> k, pad |-> 0, pre |-> 1] : k \in {"parse", "runtime"} }
+NoSrc == [lay |-> <<>>, crlf |-> FALSE, nest |-> <<>>, fault |-> [kind |-> "none", pad |-> 0, pre |-> 0]]
 
 Init == lay = <<>> /\ done = FALSE /\ src = NoSrc
 Add == /\ ~done /\ Len(lay) < Depth
